@@ -346,7 +346,7 @@ def _exact_lengths(ctx, F):
                     'accepted', line=bad.line, sink='Div', detail='lossy-length-check')
         else:
             ctx.ok('GUARD-C30f', fn, 'no equality test over a divided length (%d equality tests)' % eqs)
-    ctx.floor('GUARD-C30f', n, 4, 'equality tests in the decoders')
+    ctx.floor('GUARD-C30f', n, 2, 'equality tests in the decoders')
 
 
 def run(ctx):
